@@ -199,7 +199,7 @@ def execute(sc, ctx):
             st.res, st.fired = res, fired
             ctx.steps += 1
             ctx.evaluations += 1
-            ctx.note("cmd", [a.replace(w.base, "<BASE>") for a in op2["argv"]], res.outcome,
+            ctx.note("cmd", [a.replace(w.sandbox, "<SB>") for a in op2["argv"]], res.outcome,
                      [(e[1], e[2], e[3]) for e in res.effects])
             monitor(ctx, st)
         else:
